@@ -18,7 +18,8 @@ EXTENDS ExecState, Json, TLCExt
 
 CONSTANTS
   NF,        \* number of forks (state model)
-  BlockU,    \* engine model: set of blocks [s, h, par |-> [s, h] | NoPar, sl |-> <<slice, ...>>]
+  BlockU,    \* engine model: set of blocks [s, h, par |-> [s, h] | NoPar, sl |-> <<slice, ...>>,
+             \*   ms |-> subset of {"P","K"}: paths on which the block may arrive]
   SimDepth   \* 0 = BFS with edge dump; > 0 = simulation, behaviours of that depth are printed
 
 VARIABLES st, act, out, sid, tr
@@ -59,21 +60,24 @@ SInit ==
   /\ sid = Id(st)
   /\ tr = <<>>
 
-Nop == /\ SimDepth > 0
+\* simulation: after SimDepth steps the only enabled step is the flush step `nop`, on which the
+\* behaviour carried in `tr` is printed (EmitSim); nothing is enabled after it
+Live == SimDepth = 0 \/ Len(tr) < SimDepth
+Nop == /\ SimDepth > 0 /\ Len(tr) = SimDepth /\ act.op # "nop"
        /\ act' = [op |-> "nop", tgt |-> 0]
        /\ UNCHANGED <<st, out, sid, tr>>
 
 SNext ==
   \/ \E f \in Forks, k \in Keys, v \in Vals :
        LET r == FInsert(st[f], k, v)
-       IN SStep([op |-> "ins", f |-> f, k |-> k, v |-> v, kind |-> r.kind, tgt |-> f],
+       IN Live /\ SStep([op |-> "ins", f |-> f, k |-> k, v |-> v, kind |-> r.kind, tgt |-> f],
                 [st EXCEPT ![f] = r.s], [ret |-> r.ret, ref |-> r.ref])
   \/ \E f \in Forks, k \in Keys :
        LET r == FRemove(st[f], k)
-       IN SStep([op |-> "rem", f |-> f, k |-> k, kind |-> r.kind, tgt |-> f],
+       IN Live /\ SStep([op |-> "rem", f |-> f, k |-> k, kind |-> r.kind, tgt |-> f],
                 [st EXCEPT ![f] = r.s], [ret |-> r.ret, ref |-> r.ref])
   \/ \E f, g \in Forks :
-       /\ f # g
+       /\ f # g /\ Live
        /\ SStep([op |-> "fork", f |-> f, g |-> g, tgt |-> g,
                  kind |-> IF st[f].map = st[g].map THEN "same" ELSE
                           IF st[g].map = EmptyMap THEN "fresh" ELSE "overwrite"],
@@ -135,7 +139,7 @@ ParentId(e, par) ==
   IF KId(par.s, par.h) \in DOMAIN e THEN KId(par.s, par.h)
   ELSE IF PId(par.s) \in DOMAIN e THEN PId(par.s) ELSE PId(-1)
 
-ENext ==
+ECalls ==
   LET e == st.eng
       g == st.gh
   IN
@@ -148,9 +152,10 @@ ENext ==
                     ELSE IF from = "hash" THEN ~InU(par.s, par.h)
                     ELSE g[pid].clean /\ g[pid].done = Len(g[pid].blk.sl)
            gid == [blk |-> b, done |-> 0, seed |-> ESeed(e, par), from |-> from, clean |-> clean]
-       IN \* the by-slot lookup assumes one in-progress block per slot on the dissemination path
+       IN /\ m \in b.ms
+          \* the by-slot lookup assumes one in-progress block per slot on the dissemination path
           \* (execution.rs, InProgressBlock): a parent found by slot must be that parent
-          /\ (from = "entry" /\ pid.m = "P") => g[pid].blk.h = par.h
+          /\ ((from = "entry" /\ pid.m = "P") => g[pid].blk.h = par.h)
           /\ EStep([op |-> "begin", id |-> id, par |-> par,
                     kind |-> from \o (IF from = "entry" /\ pid.m = "P" THEN "-byslot" ELSE "")
                                   \o (IF id \in DOMAIN e THEN "-again" ELSE "")],
@@ -163,6 +168,7 @@ ENext ==
           IN EStep([op |-> "exec", id |-> id, txs |-> txs, kind |-> IF txs = <<>> THEN "empty" ELSE "txs"],
                    EExec(e, id, txs), [g EXCEPT ![id].done = @ + 1], [ev |-> NoEntry])
   \/ \E b \in BlockU, m \in {"P", "K"} :        \* transactions for a block never begun are ignored
+       /\ m \in b.ms
        /\ IdOf(b, m) \notin DOMAIN e
        /\ Len(b.sl) > 0
        /\ EStep([op |-> "exec", id |-> IdOf(b, m), txs |-> b.sl[1], kind |-> "untracked"],
@@ -176,7 +182,8 @@ ENext ==
        IN EStep([op |-> "fin", s |-> b.s, h |-> b.h,
                  kind |-> IF DOMAIN e2 = DOMAIN e THEN "keep" ELSE "prune"],
                 e2, Restrict(g, DOMAIN e2), [ev |-> NoEntry])
-  \/ Nop
+
+ENext == Nop \/ (Live /\ ECalls)
 
 (* C20, engine part *)
 EngDomains == DOMAIN st.gh = DOMAIN st.eng
@@ -203,7 +210,5 @@ EngPruned == act.op = "fin" => \A id \in DOMAIN st.eng : id.s >= act.s
 EmitEdge == PrintT(<<"EDGE", ToJson([f |-> sid, a |-> act', e |-> out', t |-> sid'])>>)
 SEmitState == PrintT(<<"STATE", ToJson([id |-> sid, init |-> (TLCGet("level") = 1), obs |-> SObs(st)])>>)
 EEmitState == PrintT(<<"STATE", ToJson([id |-> sid, init |-> (TLCGet("level") = 1), obs |-> EObs(st.eng)])>>)
-\* simulation: the behaviour is carried in `tr` and printed once, when it reaches SimDepth
-\* through the (always enabled) nop step
-EmitSim == (TLCGet("level") = SimDepth /\ act.op = "nop") => PrintT(<<"REPLAY", ToJson(tr)>>)
+EmitSim == (act.op = "nop") => PrintT(<<"REPLAY", ToJson(tr)>>)
 =============================================================================
